@@ -48,7 +48,7 @@ def gen_observers(rng, all_prob=0.3):
 def generate(seed, tier):
     rng = stream(seed, "c11")
     big = tier == "thorough" and rng.random() < 0.15
-    names, style = gen_filter(rng, None, p_none=0.6)
+    names, style = gen_filter(rng, None, p_none=0.6, user=0.2)
     spec = gen_instance(rng, sparse_ids=0.03, large=0.008, max_jobs=6 if big else 4, max_machines=5 if big else 4, max_ops=5 if big else 4,
                         positive=True if names else None)
     obs = mark_manual(stream(seed, "c11-manual"), gen_observers(rng), 0.08)
